@@ -55,6 +55,8 @@ let () = iter_lines (fun line ->
             match String.split_on_char '=' kv with
             | [n; vs] -> (match String.split_on_char ':' vs with
                           | ["bool"; v] -> Hashtbl.replace tbl n (VBool (v = "1"))
+                          | ["void"; _] -> Hashtbl.replace tbl n VVoid
+                          | ["failed"; _] -> Hashtbl.replace tbl n VFailed
                           | ["str"; h; enc] -> Hashtbl.replace tbl n (VStr (text_of_hex h, n_of_int (match enc with "utf8" -> 0 | "utf16be" -> 1 | "utf16le" -> 2 | "utf32be" -> 3 | "utf32le" -> 4 | _ -> 5)))
                           | [v; sz] -> Hashtbl.replace tbl n (VInt { bv = z_of_hex v; bsz = (if sz = "-" then None else Some (n_of_int (int_of_string sz))) })
                           | _ -> ())
